@@ -16,6 +16,9 @@ input variation (optional fields, the expected table does not depend on them):
                an integer raster, negative for unsigned, beyond the dtype range); `nd` is then a code equal to no cell
   dims         names of the two spatial dimensions; catdim: name of the category dimension (3-D)
   layer        3-D: position of the category dimension, 0 | 1 | 2 | -1 | -2
+  zmap         {code: float}: zone ids that the doubled-integer encoding cannot carry (ids a few 1e-9 apart); the
+               codes are order-isomorphic to the ids, cells / zone_ids are decoded and the observed "zone" column is
+               encoded through the table (exact match required)
   keys         stats: column names under which the reducers named in `stats` are registered (a dict stats_funcs of
                the worker's own callables); a key may be a built-in NAME carrying a different reducer
 sequence job = {fn:"seq", share:"both"|"zones"|"values", steps:[job, job, ...]}: the steps are run one after the other
@@ -118,6 +121,18 @@ def enc_pct(x, ncell):
     return BADQ
 
 
+_ZMAP = {}       # code -> id of the current job (see `zmap`), and its inverse
+_ZINV = {}
+
+
+def set_zmap(j):
+    _ZMAP.clear()
+    _ZINV.clear()
+    for k, v in (j.get("zmap") or {}).items():
+        _ZMAP[int(k)] = float(v)
+        _ZINV[float(v)] = int(k)
+
+
 def enc_zone(x):
     try:
         x = float(x)
@@ -125,9 +140,24 @@ def enc_zone(x):
         return BADZ
     if not math.isfinite(x):
         return BADZ
+    if _ZMAP:
+        return _ZINV.get(x, BADZ)
     y = 2 * x
     r = int(round(y))
     return r if abs(y - r) <= 1e-9 else BADZ
+
+
+def mk_zones(codes, dtype, shape):
+    if not _ZMAP:
+        return mk_array(codes, 2, dtype, shape)
+    a = np.array([_ZMAP[c] if c in _ZMAP else dec(c, 2) for c in codes], dtype=np.float64).reshape(shape)
+    return a.astype(dtype)
+
+
+def zone_ids_arg(codes, as_int):
+    if not _ZMAP:
+        return ids_arg(codes, 2, as_int)
+    return [_ZMAP[c] for c in codes]
 
 
 def mk_array(codes, scale, dtype, shape):
@@ -235,7 +265,7 @@ def stats_inputs(j, held=None, share=""):
     H, W, vs = j["H"], j["W"], j["vs"]
     backend = j.get("backend", "numpy")
     dims = list(j.get("dims") or ["y", "x"])
-    za = mk_array(j["z"], 2, j["zdt"], (H, W))
+    za = mk_zones(j["z"], j["zdt"], (H, W))
     va = mk_array(j["v"], vs, j["vdt"], (H, W))
     if held and share in ("both", "zones"):
         zones = held[0]
@@ -251,6 +281,7 @@ def stats_inputs(j, held=None, share=""):
 
 
 def run_stats(j, held=None, share=""):
+    set_zmap(j)
     H, W, vs = j["H"], j["W"], j["vs"]
     n = H * W
     zint = j["zdt"].startswith("int")
@@ -266,7 +297,7 @@ def run_stats(j, held=None, share=""):
         sf = names
     kw = dict(stats_funcs=sf, nodata_values=nodata_arg(j["nd"], vs, vint, j.get("nd_raw")))
     if not j["all"]:
-        kw["zone_ids"] = ids_arg(j["ids"], 2, zint)
+        kw["zone_ids"] = zone_ids_arg(j["ids"], zint)
     if j["rt"] == "da":
         kw["return_type"] = "xarray.DataArray"
     backend = j.get("backend", "numpy")
@@ -311,18 +342,19 @@ def run_stats(j, held=None, share=""):
 
 # ---------------------------------------------------------------- crosstab
 def run_crosstab(j, held=None, share=""):
+    set_zmap(j)
     H, W, vs, dim = j["H"], j["W"], j["vs"], j["dim"]
     n = H * W
     zint = j["zdt"].startswith("int")
     vint = j["vdt"].startswith("int")
-    za = mk_array(j["z"], 2, j["zdt"], (H, W))
+    za = mk_zones(j["z"], j["zdt"], (H, W))
     dims = list(j.get("dims") or ["y", "x"])
     catdim = j.get("catdim") or "cat"
     backend = j.get("backend", "numpy")
     cats = list(j.get("cats") or [])
     kw = dict(agg=j["agg"], nodata_values=nodata_arg(j["nd"], vs, vint, j.get("nd_raw")))
     if not j["zall"]:
-        kw["zone_ids"] = ids_arg(j["zids"], 2, zint)
+        kw["zone_ids"] = zone_ids_arg(j["zids"], zint)
     reuse_v = bool(held) and share in ("both", "values")
     if dim == 2:
         va = mk_array(j["v"][0], vs, j["vdt"], (H, W))
